@@ -5,7 +5,7 @@
 (* triple of the pool, together with the verdict of the mechanism model M  *)
 (* on the same tuple, and the cell-by-cell comparison of M with the code.  *)
 (*                                                                         *)
-(* One action per law; one state per evaluated law instance (for the       *)
+(* One initial state per first operand a.  One action per law; one state per evaluated law instance (for the       *)
 (* triple laws: per instance whose premise holds - the others hold         *)
 (* vacuously and are only counted by Python).  A state with ok = FALSE is  *)
 (* a tuple on which the REAL CODE breaks the law: Report prints it.        *)
@@ -18,8 +18,7 @@ EXTENDS ValueOrder, Json, IOUtils
 T == ndJsonDeserialize(IOEnv.TABLE)[1]
 NV == Len(T.pool)
 Ix == 1..NV
-\* triple laws are evaluated on the first NT3 elements (NV in the thorough tier)
-CONSTANT Triples
+CONSTANT Triples      \* FALSE: only the element and pair laws (used by --replay of a pair)
 
 \* observed
 EqC(a, b) == T.eq[a][b]
@@ -39,28 +38,40 @@ HeqMi(a, b) == HeqMT[a][b]
 VARIABLES law, tup, ok, mok
 vars == <<law, tup, ok, mok>>
 
-Init == law = "init" /\ tup = <<>> /\ ok = TRUE /\ mok = TRUE
+\* one initial state per first operand, so that TLC workers share the evaluation
+Init == law = "init" /\ tup \in {<<a>> : a \in Ix} /\ ok = TRUE /\ mok = TRUE
+A1 == tup[1]
 
-Eval(l, t, o, m) == law = "init" /\ law' = l /\ tup' = t /\ ok' = o /\ mok' = m
+Fresh == law = "init"
+Eval(l, t, o, m) == law' = l /\ tup' = t /\ ok' = o /\ mok' = m
 
-EvalEqReflexive == \E a \in Ix : Eval("EqReflexive", <<a>>, EqReflexive(EqT, a), EqReflexive(EqMi, a))
-EvalNoPanic == \E a, b \in Ix : Eval("NoPanic", <<a, b>>, NoPanic(CmpT, EqC, a, b), NoPanic(CmpMi, EqMc, a, b))
-EvalEqSymmetric == \E a, b \in Ix : Eval("EqSymmetric", <<a, b>>, EqSymmetric(EqT, a, b), EqSymmetric(EqMi, a, b))
-EvalEqImpliesHashEq == \E a, b \in Ix : Eval("EqImpliesHashEq", <<a, b>>, EqImpliesHashEq(EqT, HeqT, a, b), EqImpliesHashEq(EqMi, HeqMi, a, b))
-EvalCmpAntisymmetric == \E a, b \in Ix : Eval("CmpAntisymmetric", <<a, b>>, CmpAntisymmetric(CmpT, a, b), CmpAntisymmetric(CmpMi, a, b))
-EvalCmpEqualIffEq == \E a, b \in Ix : Eval("CmpEqualIffEq", <<a, b>>, CmpEqualIffEq(EqT, CmpT, a, b), CmpEqualIffEq(EqMi, CmpMi, a, b))
-EvalEqTransitive == Triples /\ \E a, b, c \in Ix :
-    /\ EqTransitivePremise(EqT, a, b, c)
+EvalEqReflexive == Fresh /\ LET a == A1 IN Eval("EqReflexive", <<a>>, EqReflexive(EqT, a), EqReflexive(EqMi, a))
+EvalNoPanic == Fresh /\ \E b \in Ix : LET a == A1 IN Eval("NoPanic", <<a, b>>, NoPanic(CmpT, EqC, a, b), NoPanic(CmpMi, EqMc, a, b))
+EvalEqSymmetric == Fresh /\ \E b \in Ix : LET a == A1 IN Eval("EqSymmetric", <<a, b>>, EqSymmetric(EqT, a, b), EqSymmetric(EqMi, a, b))
+EvalEqImpliesHashEq == Fresh /\ \E b \in Ix : LET a == A1 IN Eval("EqImpliesHashEq", <<a, b>>, EqImpliesHashEq(EqT, HeqT, a, b), EqImpliesHashEq(EqMi, HeqMi, a, b))
+EvalCmpAntisymmetric == Fresh /\ \E b \in Ix : LET a == A1 IN Eval("CmpAntisymmetric", <<a, b>>, CmpAntisymmetric(CmpT, a, b), CmpAntisymmetric(CmpMi, a, b))
+EvalCmpEqualIffEq == Fresh /\ \E b \in Ix : LET a == A1 IN Eval("CmpEqualIffEq", <<a, b>>, CmpEqualIffEq(EqT, CmpT, a, b), CmpEqualIffEq(EqMi, CmpMi, a, b))
+\* the triple laws, split so that TLC's per-action coverage counts the non-degenerate instances
+Distinct3(a, b, c) == a # b /\ b # c /\ a # c
+EvalEqTransitive == Fresh /\ Triples /\ \E b, c \in Ix : LET a == A1 IN
+    /\ Distinct3(a, b, c) /\ EqTransitivePremise(EqT, a, b, c)
     /\ Eval("EqTransitive", <<a, b, c>>, EqTransitive(EqT, a, b, c), EqTransitive(EqMi, a, b, c))
-EvalCmpTransitive == Triples /\ \E a, b, c \in Ix :
-    /\ CmpTransitivePremise(CmpT, a, b, c)
+EvalEqTransitiveRepeated == Fresh /\ Triples /\ \E b, c \in Ix : LET a == A1 IN
+    /\ ~Distinct3(a, b, c) /\ EqTransitivePremise(EqT, a, b, c)
+    /\ Eval("EqTransitive", <<a, b, c>>, EqTransitive(EqT, a, b, c), EqTransitive(EqMi, a, b, c))
+EvalCmpTransitive == Fresh /\ Triples /\ \E b, c \in Ix : LET a == A1 IN
+    /\ Distinct3(a, b, c) /\ CmpTransitivePremise(CmpT, a, b, c)
+    /\ Eval("CmpTransitive", <<a, b, c>>, CmpTransitive(CmpT, a, b, c), CmpTransitive(CmpMi, a, b, c))
+EvalCmpTransitiveRepeated == Fresh /\ Triples /\ \E b, c \in Ix : LET a == A1 IN
+    /\ ~Distinct3(a, b, c) /\ CmpTransitivePremise(CmpT, a, b, c)
     /\ Eval("CmpTransitive", <<a, b, c>>, CmpTransitive(CmpT, a, b, c), CmpTransitive(CmpMi, a, b, c))
 \* binding of M to the code, cell by cell (a difference is MODEL-DRIFT, never an alarm)
-EvalConform == \E a, b \in Ix :
+EvalConform == Fresh /\ \E b \in Ix : LET a == A1 IN
     Eval("Conform", <<a, b>>, TRUE, CmpT(a, b) = CmpMi(a, b) /\ EqC(a, b) = EqMc(a, b) /\ (HeqT(a, b) <=> HeqMi(a, b)))
 
 Next == \/ EvalEqReflexive \/ EvalNoPanic \/ EvalEqSymmetric \/ EvalEqImpliesHashEq
-        \/ EvalCmpAntisymmetric \/ EvalCmpEqualIffEq \/ EvalEqTransitive \/ EvalCmpTransitive \/ EvalConform
+        \/ EvalCmpAntisymmetric \/ EvalCmpEqualIffEq \/ EvalEqTransitive \/ EvalEqTransitiveRepeated
+        \/ EvalCmpTransitive \/ EvalCmpTransitiveRepeated \/ EvalConform
 
 \* INVARIANT: always TRUE; prints the law instances the real code breaks, and the cells where M differs
 Report == /\ ok \/ PrintT(<<"FAIL", ToJson([law |-> law, tup |-> tup, m |-> mok])>>)
